@@ -76,14 +76,30 @@ Print Assumptions C06_altered_bit_inert.
 
 Theorem C06_unaddressed_response_inert : forall cfg now0 evs now src oidx m,
   let st := reach cfg now0 evs in
-  m_kind m = KResp -> addressed st m = false -> recv st now src oidx m = (st, []).
+  m_kind m = KResp -> loaded st = false -> addressed st m = false -> recv st now src oidx m = (st, []).
 Proof. intros. apply unaddressed_response_inert; assumption. Qed.
 Print Assumptions C06_unaddressed_response_inert.
+
+(* The gate and MAC1 theorems above hold in EVERY reachable state, in particular
+   while the device is under load; spelled out: a message whose MAC1 does not
+   verify draws no cookie reply either.  Under load any other message leaves the
+   state untouched and is answered by at most a cookie reply (C10's path). *)
+Theorem C06_bad_mac1_silent_under_load : forall cfg now0 evs now src oidx m,
+  let st := reach cfg now0 evs in
+  loaded st = true -> mac1_ok (m_kind m) m = false -> recv st now src oidx m = (st, []).
+Proof. intros. apply bad_mac1_inert. assumption. Qed.
+Print Assumptions C06_bad_mac1_silent_under_load.
+
+Theorem C06_under_load_only_cookie : forall cfg now0 evs now src oidx m,
+  let st := reach cfg now0 evs in
+  loaded st = true -> inert_ul st (recv st now src oidx m).
+Proof. intros. apply under_load_only_cookie. assumption. Qed.
+Print Assumptions C06_under_load_only_cookie.
 
 (* AEAD-protected fields stay fatal when the sender recomputes MAC1. *)
 Theorem C06_initiation_aead_inert : forall cfg now0 evs now src oidx m,
   let st := reach cfg now0 evs in
-  m_kind m = KInit ->
+  m_kind m = KInit -> loaded st = false ->
   altered KInit FEphemeral m || altered KInit FEncStatic m || altered KInit FEncTimestamp m = true ->
   recv st now src oidx m = (st, []).
 Proof. intros. apply initiation_aead_inert; assumption. Qed.
@@ -91,7 +107,7 @@ Print Assumptions C06_initiation_aead_inert.
 
 Theorem C06_response_aead_inert : forall cfg now0 evs now src oidx m,
   let st := reach cfg now0 evs in
-  m_kind m = KResp -> altered KResp FEphemeral m || altered KResp FEmpty m = true ->
+  m_kind m = KResp -> loaded st = false -> altered KResp FEphemeral m || altered KResp FEmpty m = true ->
   recv st now src oidx m = (st, []).
 Proof. intros. apply response_aead_inert; assumption. Qed.
 Print Assumptions C06_response_aead_inert.
@@ -99,20 +115,22 @@ Print Assumptions C06_response_aead_inert.
 (* ------------------------------ second sentence: anti-replay, flood limit *)
 Theorem C06_initiation_replay_rejected : forall cfg now0 evs now src oidx m,
   let st := reach cfg now0 evs in
-  m_kind m = KInit -> m_ts m <= last_ts (peers st (m_static m)) ->
+  m_kind m = KInit -> loaded st = false -> m_ts m <= last_ts (peers st (m_static m)) ->
   recv st now src oidx m = (st, []).
 Proof. intros. apply initiation_replay_rejected; assumption. Qed.
 Print Assumptions C06_initiation_replay_rejected.
 
 Theorem C06_initiation_flood_rejected : forall cfg now0 evs now src oidx m,
   let st := reach cfg now0 evs in
-  m_kind m = KInit -> now - last_cons (peers st (m_static m)) <= HandshakeInitationRate ->
+  m_kind m = KInit -> loaded st = false -> now - last_cons (peers st (m_static m)) <= HandshakeInitationRate ->
   recv st now src oidx m = (st, []).
 Proof. intros. apply initiation_flood_rejected; assumption. Qed.
 Print Assumptions C06_initiation_flood_rejected.
 
-(* history form: over every event list, the timestamps of the initiations of
-   peer p that the device answered are strictly increasing *)
+(* history form: over every event list — including restarts (Down/Up: Peer.Stop,
+   handshake.Clear, Peer.Start), under-load phases and hook calls — the
+   timestamps of the initiations of peer p that the device answered (a response
+   left) are strictly increasing: lastTimestamp survives handshake.Clear *)
 Theorem C06_accepted_initiation_strictly_newer : forall cfg now0 evs p,
   StronglySorted N.lt (acc_ts p evs (outs step (init cfg now0) evs)).
 Proof. exact accepted_initiation_strictly_newer. Qed.
@@ -121,10 +139,10 @@ Print Assumptions C06_accepted_initiation_strictly_newer.
 (* --------------------------------- responses: one session, latest only *)
 Theorem C06_response_once : forall cfg now0 evs e src m evs2 now' src' oidx' m',
   let st := reach cfg now0 evs in
-  e_body e = BMsg src m -> m_kind m = KResp -> snd (step st e) <> [] ->
+  e_body e = BMsg src m -> m_kind m = KResp -> existsb is_trans (snd (step st e)) = true ->
   m_kind m' = KResp -> m_static m' = m_static m -> m_ans m' = m_ans m ->
   let st' := final step (fst (step st e)) evs2 in
-  recv st' now' src' oidx' m' = (st', []).
+  inert_ul st' (recv st' now' src' oidx' m').
 Proof.
   intros. eapply response_once; try eassumption.
   apply seq_ok_final, seq_ok_init.
@@ -136,7 +154,7 @@ Theorem C06_response_only_for_latest_initiation : forall cfg now0 evs e to p s t
   snd (step st e) = [OInit to p s ts] ->
   m_kind m' = KResp -> m_static m' = p -> m_ans m' <= nseq st ->
   let st' := final step (fst (step st e)) evs2 in
-  recv st' now' src' oidx' m' = (st', []).
+  inert_ul st' (recv st' now' src' oidx' m').
 Proof.
   intros. eapply response_only_for_latest_initiation; try eassumption.
   apply seq_ok_final, seq_ok_init.
@@ -188,6 +206,41 @@ Example C06_nonvacuous_initiations :
         ev 210000000 75 (BMsg 1 (ex_init 700 13 4 [] false));
         ev 280000000 76 (BMsg 1 (ex_init 800 14 5 [Flip 1100] false)) ])
   = [1; 0; 0; 1; 0; 1; 1]%nat.
+Proof. vm_compute. reflexivity. Qed.
+
+(* answered initiation; Down/Up; the same bytes 1 s later from another address,
+   an older and an equal timestamp are all silent; a newer one is answered *)
+Example C06_nonvacuous_replay_after_restart :
+  map (@length out)
+    (outs step (init [(1, 0, 1)] T0)
+      [ ev 1000000 70 (BMsg 1 (ex_init 500 11 1 [] false));
+        ev 2000000 0 BRestart;
+        ev 1002000000 71 (BMsg 3 (ex_init 500 11 1 [] false));
+        ev 2002000000 72 (BMsg 1 (ex_init 499 12 2 [] false));
+        ev 3002000000 73 (BMsg 1 (ex_init 500 13 3 [] false));
+        ev 4002000000 74 (BMsg 1 (ex_init 501 14 4 [] false)) ])
+  = [1; 0; 0; 0; 0; 1]%nat
+  /\ acc_ts 1 [ ev 1000000 70 (BMsg 1 (ex_init 500 11 1 [] false)); ev 2000000 0 BRestart;
+               ev 4002000000 74 (BMsg 1 (ex_init 501 14 4 [] false)) ]
+       (outs step (init [(1, 0, 1)] T0)
+          [ ev 1000000 70 (BMsg 1 (ex_init 500 11 1 [] false)); ev 2000000 0 BRestart;
+            ev 4002000000 74 (BMsg 1 (ex_init 501 14 4 [] false)) ]) = [500; 501].
+Proof. split; vm_compute; reflexivity. Qed.
+
+(* under load: flipped MAC1 bit, flipped covered bit, truncation: silent;
+   the unaltered message: exactly a cookie reply, state untouched *)
+Example C06_nonvacuous_under_load :
+  outs step (init [(1, 0, 1)] T0)
+      [ ev 1000000 0 (BLoad true);
+        ev 2000000 70 (BMsg 1 (ex_init 500 11 1 [Flip 928] false));
+        ev 3000000 70 (BMsg 1 (ex_init 500 11 1 [Flip 32] false));
+        ev 4000000 70 (BMsg 1 {| m_kind := KInit; m_len := 147; m_muts := []; m_remac := false; m_mac1key := 0;
+                                 m_sender := 11; m_receiver := 0; m_static := 1; m_to := 0; m_psk := 0; m_eph := 1;
+                                 m_ts := 500; m_ans := 0 |});
+        ev 5000000 70 (BMsg 1 (ex_init 500 11 1 [] false));
+        ev 6000000 0 (BLoad false);
+        ev 7000000 70 (BMsg 1 (ex_init 500 11 1 [] false)) ]
+  = [[]; []; []; []; [OCookie 1 11]; []; [OResp 1 1 70 11 true]].
 Proof. vm_compute. reflexivity. Qed.
 
 (* two initiations of the device 6 s apart; response to the first one silent,
